@@ -22,7 +22,7 @@ from harness.trace import Run
 PROP = "C01"
 THEOREMS = ["Lbfgsb.C01.projgr_zero_iff_kkt", "Lbfgsb.C01.d0_zero_iff_kkt", "Lbfgsb.C01.nonstationary_moves",
             "Lbfgsb.C01.moving_breakpoint_pos", "Lbfgsb.C01.d0_descent_term",
-            "Lbfgsb.C01.nonstationary_cauchy_decrease", "Lbfgsb.C01.nonstationary_descent"]
+            "Lbfgsb.C01.nonstationary_cauchy_decrease", "Lbfgsb.C01.nonstationary_descent", "Lbfgsb.C01.model_iteration_descent"]
 MODULES = ["LbfgsbVerif.Props.C01", "LbfgsbVerif.Props.C01Descent"]
 EPS = float(np.finfo(float).eps)
 
